@@ -576,8 +576,10 @@ where
         // add the new element in the qp vector as the last in the heap
         self.store.qp.push(Position(i));
         self.store.heap.push(Index(i));
-        self.bubble_up(Position(i), Index(i));
+        // count the new element before sifting it: a panic in a comparison
+        // must not leave size behind the length of heap and qp
         self.store.size += 1;
+        self.bubble_up(Position(i), Index(i));
         None
     }
 
@@ -913,8 +915,11 @@ where
                 // on a min level and greater then parent
                 (true, true) => {
                     unsafe {
+                        // complete the swap: the comparisons that follow may panic
                         *self.store.heap.get_unchecked_mut(position.0) = parent_index;
                         *self.store.qp.get_unchecked_mut(parent_index.0) = position;
+                        *self.store.heap.get_unchecked_mut(parent.0) = map_position;
+                        *self.store.qp.get_unchecked_mut(map_position.0) = parent;
                     }
                     self.bubble_up_max(parent, map_position)
                 }
@@ -925,8 +930,11 @@ where
                 // on a max level and less then parent
                 (false, false) => {
                     unsafe {
+                        // complete the swap: the comparisons that follow may panic
                         *self.store.heap.get_unchecked_mut(position.0) = parent_index;
                         *self.store.qp.get_unchecked_mut(parent_index.0) = position;
+                        *self.store.heap.get_unchecked_mut(parent.0) = map_position;
+                        *self.store.qp.get_unchecked_mut(map_position.0) = parent;
                     }
                     self.bubble_up_min(parent, map_position)
                 }
@@ -952,9 +960,13 @@ where
             false
         } {
             unsafe {
+                // complete the swap at every level: if the next comparison
+                // panics, heap and qp must still be consistent with each other
                 let grand_parent_index = *self.store.heap.get_unchecked(grand_parent.0);
                 *self.store.heap.get_unchecked_mut(position.0) = grand_parent_index;
                 *self.store.qp.get_unchecked_mut(grand_parent_index.0) = position;
+                *self.store.heap.get_unchecked_mut(grand_parent.0) = map_position;
+                *self.store.qp.get_unchecked_mut(map_position.0) = grand_parent;
             }
             position = grand_parent;
         }
@@ -971,9 +983,13 @@ where
             false
         } {
             unsafe {
+                // complete the swap at every level: if the next comparison
+                // panics, heap and qp must still be consistent with each other
                 let grand_parent_index = *self.store.heap.get_unchecked(grand_parent.0);
                 *self.store.heap.get_unchecked_mut(position.0) = grand_parent_index;
                 *self.store.qp.get_unchecked_mut(grand_parent_index.0) = position;
+                *self.store.heap.get_unchecked_mut(grand_parent.0) = map_position;
+                *self.store.qp.get_unchecked_mut(map_position.0) = grand_parent;
             }
             position = grand_parent;
         }
